@@ -9,6 +9,7 @@ package security
 import (
 	"github.com/emitter-io/emitter/internal/security/hash"
 	vs "github.com/emitter-io/emitter/internal/verifspec"
+	"time"
 )
 
 // the 32-bit murmur hash of a channel text is an uninterpreted function of the text in every contract of this package
@@ -352,4 +353,68 @@ func post_SetTarget_depth(k Key, res0 error) bool {
 	}
 	d := specTargetDepth(specTargetPath(k) & 0x7fffff)
 	return d == 0 || d == specTargetLen()
+}
+
+// ---------------------------------------------------------------------------------------------------------
+// The channel options the handlers act on (C02: `me=0` keeps the publisher out of its own fan-out; C07: `ttl`, `last`;
+// C06: `from` / `until`). Each getter asks getOption for ITS option name (64 bits) and hands the answer on: Exclude is
+// true exactly for a well-formed me=0; the window bounds go through toUnix one each, from first. getOption itself:
+// the FIRST option with the asked name decides - its value parsed as a decimal number, or "not set" when it does not
+// parse - and options with other names in front of it are skipped.
+// @ verify (*Channel).TTL pre=pre_Channel_opt post=post_Channel_TTL props=C07,C02
+// @ verify (*Channel).Last pre=pre_Channel_opt post=post_Channel_Last props=C07,C06
+// @ verify (*Channel).Exclude pre=pre_Channel_opt post=post_Channel_Exclude props=C02
+// @ verify (*Channel).Window pre=pre_Channel_opt post=post_Channel_Window props=C06
+// @ assume (*Channel).getOption iface for=TTL
+// @ assume (*Channel).getOption iface for=Last
+// @ assume (*Channel).getOption iface for=Exclude
+// @ assume (*Channel).getOption iface for=Window
+// @ assume toUnix iface for=Window
+func pre_Channel_opt(c *Channel) bool { return c != nil }
+func specAsked(i int, c *Channel, name string) bool {
+	return vs.TraceIs(i, "getOption") && vs.TraceArg[*Channel](i, 0) == c && vs.TraceArg[string](i, 1) == name && vs.TraceArg[int](i, 2) == 64
+}
+func post_Channel_TTL(c *Channel, res0 int64, res1 bool) bool {
+	return vs.TraceLen() == 1 && specAsked(0, c, "ttl") && res0 == vs.TraceRet[int64](0, 0) && res1 == vs.TraceRet[bool](0, 1)
+}
+func post_Channel_Last(c *Channel, res0 int64, res1 bool) bool {
+	return vs.TraceLen() == 1 && specAsked(0, c, "last") && res0 == vs.TraceRet[int64](0, 0) && res1 == vs.TraceRet[bool](0, 1)
+}
+func post_Channel_Exclude(c *Channel, res0 bool) bool {
+	return vs.TraceLen() == 1 && specAsked(0, c, "me") && res0 == (vs.TraceRet[bool](0, 1) && vs.TraceRet[int64](0, 0) == 0)
+}
+func post_Channel_Window(c *Channel, res0 time.Time, res1 time.Time) bool {
+	return vs.TraceLen() == 4 && specAsked(0, c, "from") && specAsked(1, c, "until") &&
+		vs.TraceIs(2, "toUnix") && vs.TraceArg[int64](2, 0) == vs.TraceRet[int64](0, 0) &&
+		vs.TraceIs(3, "toUnix") && vs.TraceArg[int64](3, 0) == vs.TraceRet[int64](1, 0) &&
+		res0 == vs.TraceRet[time.Time](2, 0) && res1 == vs.TraceRet[time.Time](3, 0)
+}
+
+// @ verify (*Channel).getOption pre=pre_Channel_opt post=post_getOption props=C02,C07,C06
+// @ loop (*Channel).getOption 0 inv inv_getOption
+// @ assume strconv.ParseInt iface for=getOption
+func inv_getOption(i int, c *Channel, name string) bool {
+	return 0 <= i && i <= len(c.Options) && vs.TraceLen() == 0 &&
+		vs.Forall(0, i, func(j int) bool { return c.Options[j].Key != name })
+}
+func specFirstNamed(c *Channel, name string, at int) bool {
+	return 0 <= at && at < len(c.Options) && c.Options[at].Key == name &&
+		vs.Forall(0, at, func(j int) bool { return c.Options[j].Key != name })
+}
+func post_getOption(c *Channel, name string, bitSize int, res0 int64, res1 bool) bool {
+	p := vs.TraceFind("strconv.ParseInt")
+	if p < 0 { // no option of that name
+		return !res1 && res0 == 0 && vs.TraceLen() == 0 && vs.Forall(0, len(c.Options), func(j int) bool { return c.Options[j].Key != name })
+	}
+	if vs.TraceLen() != 1 || vs.TraceArg[int](p, 1) != 10 || vs.TraceArg[int](p, 2) != bitSize {
+		return false
+	}
+	// the text that was parsed is the value of the first option carrying the name
+	found := vs.Exists(0, len(c.Options), func(at int) bool {
+		return specFirstNamed(c, name, at) && c.Options[at].Value == vs.TraceArg[string](p, 0)
+	})
+	if vs.TraceRet[error](p, 1) != nil {
+		return found && !res1 && res0 == 0
+	}
+	return found && res1 && res0 == vs.TraceRet[int64](p, 0)
 }
